@@ -1,51 +1,91 @@
 #!/usr/bin/env python3
 """Copy confirmed seeded changes into /verif/seeded/<id>/<variant>/ with a meta.json each.
-usage: assemble_seeded.py <seeds-root> <round> <seedcheck-log> <matrix-log>"""
+usage: assemble_seeded.py <seeds-root> <round> <seedcheck-log> <first-matrix-log> <final-matrix-log>
+  round 1 -> variants a, b; round N>1 -> rNa, rNb.
+  first-matrix-log: the checks as they were when the change arrived; final-matrix-log: the committed checks."""
 import json, os, re, shutil, sys
-root, rnd, sclog, mlog = sys.argv[1:5]
-# seedcheck results
-ok = {}
-cur = None
-for l in open(sclog):
-    m = re.match(r'===== (C\d+)/(\w)', l)
-    if m: cur = (m.group(1), m.group(2)); continue
-    if l.startswith('RESULT') and cur:
-        ok[cur] = l.strip()
-# matrix: which checks fired
-fired = {}
-cur = None
-for l in open(mlog):
-    m = re.match(r'######## .*/(C\d+)/(\w)/patch.diff', l)
-    if m: cur = (m.group(1), m.group(2)); fired.setdefault(cur, {}); continue
-    m = re.match(r'== (C\d+) rc=(\d+)', l)
-    if m and cur: last = m.group(1); fired[cur][last] = {'rc': int(m.group(2)), 'keys': []}; continue
-    m = re.match(r'\s+key=(\S+) occurrences=(\d+)', l)
-    if m and cur: fired[cur][last]['keys'].append(m.group(1))
+root, rnd, sclog, mlog_first, mlog_final = sys.argv[1:6]
+rootname = os.path.basename(os.path.normpath(root))
+
+def seedcheck(path):
+    ok, cur = {}, None
+    for l in open(path, errors='replace'):
+        m = re.match(r'===== (?:(\S*)/)?(C\d+)/(\w)\b', l)
+        if m:
+            # logs of several rounds may share a file: keep only headers of this root (or bare ones)
+            if m.group(1) and os.path.basename(m.group(1)) != rootname:
+                cur = None
+            else:
+                cur = (m.group(2), m.group(3))
+            continue
+        if l.startswith('RESULT') and cur:
+            ok[cur] = l.strip()  # a rerun overrides
+    return ok
+
+def matrix(path):
+    fired, cur, last = {}, None, None
+    for l in open(path, errors='replace'):
+        m = re.match(r'######## (\S*)/(C\d+)/(\w)/patch.diff', l)
+        if m:
+            cur = (m.group(2), m.group(3)) if os.path.basename(m.group(1)) == rootname else None
+            if cur:
+                fired.setdefault(cur, {})
+            continue
+        m = re.match(r'== (C\d+) rc=(\d+)', l)
+        if m and cur:
+            last = m.group(1)
+            fired[cur][last] = {'rc': int(m.group(2)), 'keys': []}
+            continue
+        m = re.match(r'\s+key=(\S+) occurrences=(\d+)', l)
+        if m and cur and last:
+            fired[cur][last]['keys'].append(m.group(1))
+    return fired
+
+def render(det):
+    return {k: ('VIOLATION ' + ', '.join(x['keys']) if x['rc'] == 1 else ('silent' if x['rc'] == 0 else 'rc=%d (inconclusive)' % x['rc'])) for k, x in sorted(det.items())}
+
+def needs(readme):
+    """the seeding agent's own words on what the change needs to manifest"""
+    m = re.search(r'^#+[^\n]*needs[^\n]*\n(.*?)(?=^#|\Z)', readme, re.S | re.M | re.I)
+    if not m:
+        m = re.search(r'(?:^|\n)[^\n]*\bneeds\b[^\n]*\n?(.*?)(?=\n\n|\Z)', readme, re.S | re.I)
+        if not m:
+            return 'see README.md (written by the seeding agent)'
+        return ' '.join(m.group(0).split())[:900]
+    return ' '.join(m.group(1).split())[:900]
+
+ok = seedcheck(sclog)
+first, final = matrix(mlog_first), matrix(mlog_final)
 for (pid, v), res in sorted(ok.items()):
     src = os.path.join(root, pid, v)
+    if not os.path.isdir(src):
+        continue
     if 'clean_demo_pass=1 mutant_demo_fails=1 suite_pass=1' not in res:
-        print('SKIP (not confirmed)', pid, v, res); continue
+        print('SKIP (not confirmed)', pid, v, res)
+        continue
     name = v if rnd == '1' else 'r%s%s' % (rnd, v)
     dst = os.path.join('/verif/seeded', pid, name)
     os.makedirs(dst, exist_ok=True)
     for f in os.listdir(src):
         if f in ('patch.diff', 'README.md') or f.startswith('demo'):
             shutil.copy(os.path.join(src, f), os.path.join(dst, f))
-    readme = open(os.path.join(src, 'README.md')).read() if os.path.exists(os.path.join(src, 'README.md')) else ''
-    det = fired.get((pid, v), {})
+    readme = open(os.path.join(src, 'README.md'), errors='replace').read() if os.path.exists(os.path.join(src, 'README.md')) else ''
+    d1, d2 = first.get((pid, v), {}), final.get((pid, v), {})
     meta = {
         'property': pid,
         'origin': 'sub-agent round %s, given only the property text and a scratch worktree' % rnd,
-        'what_it_breaks_and_needs': 'see README.md (written by the seeding agent)',
+        'what_it_needs_to_manifest': needs(readme),
         'confirmed': {
             'how': 'scripts/seedcheck.sh in a scratch worktree of /repo HEAD: patch applies; demonstration passes without the change and fails with it; both modules\' existing suites pass with the change',
             'result': res,
         },
         'checks_run': {
             'how': 'scripts/mutwt.sh <patch> <scratch worktree> <ids>: quick tier, VERIF_SEED=1, VERIF_REPO=<worktree with the patch applied>',
-            'results': {k: ('VIOLATION ' + ', '.join(x['keys']) if x['rc'] == 1 else ('silent' if x['rc'] == 0 else 'rc=%d' % x['rc'])) for k, x in sorted(det.items())},
+            'when_the_change_arrived': render(d1),
+            'committed_checks': render(d2),
         },
-        'detected_by': sorted(k for k, x in det.items() if x['rc'] == 1),
+        'detected_by': sorted(k for k, x in d2.items() if x['rc'] == 1),
+        'missed_at_first_by_own_property_check': bool(d1) and d1.get(pid, {}).get('rc') != 1,
     }
     json.dump(meta, open(os.path.join(dst, 'meta.json'), 'w'), indent=1)
-    print(pid, name, meta['detected_by'])
+    print(pid, name, 'first:', sorted(k for k, x in d1.items() if x['rc'] == 1), 'final:', meta['detected_by'])
